@@ -32,6 +32,7 @@ var (
 	flagExplain  = flag.String("explain", "", "replay: re-derive the obligation stored in this violation file")
 	flagList     = flag.Bool("list", false, "print every obligation")
 	flagFixture  = flag.String("fixture", "", "internal: analyse a fixture directory instead of the repo (selftest)")
+	flagGenAnch  = flag.Bool("gen-anchors", false, "development: print anchors_gen.go for the tree given by -repo")
 )
 
 // propFunc analyses one build configuration for one property.
@@ -56,6 +57,13 @@ var thoroughConfigs = []string{"linux/amd64", "linux/386", "windows/amd64", "dar
 
 func main() {
 	flag.Parse()
+	if *flagGenAnch {
+		if err := genAnchors(*flagRepo); err != nil {
+			fmt.Fprintln(os.Stderr, err)
+			os.Exit(2)
+		}
+		return
+	}
 	tier := *flagTier
 	if tier == "" {
 		tier = os.Getenv("VERIF_TIER")
@@ -137,7 +145,8 @@ func analyseConfig(id, tier, config string) (res *ConfigResult) {
 	p.fn(r)
 	res.Obs = r.Obs
 	res.Samples = r.Samples
-	res.Notes = r.Notes
+	res.Notes = append(append([]string{}, l.Notes...), r.Notes...)
+	res.Stats["functions_restored_to_pinned_form"] = len(l.Notes)
 	for _, pk := range l.modulePkgs() {
 		res.Packages = append(res.Packages, pk.PkgPath)
 	}
